@@ -30,6 +30,10 @@ SK = "skmatter.preprocessing.SparseKernelCenterer"
 
 
 def check(ctx):
+    # positional parameters keep their documented positions (a reordering survives every keyword call)
+    from ..sigrules import signatures as _signatures
+
+    _signatures(ctx, "R-SIG", classes=('skmatter.preprocessing.KernelNormalizer', 'skmatter.preprocessing.SparseKernelCenterer'))
     P = ctx.P
     N = ctx.normalizer()
     cls = P.cls(KN)
@@ -72,6 +76,12 @@ def check(ctx):
                     avgs = [x for x in t.term.walk() if x.op in ("average", "mean") ]
                     okw = avgs and all(any(isinstance(a_, tuple) and a_[0] == "weights" for a_ in x.args[1:]) for x in avgs if any(s.op == "sym" and s.args[0] == "Kt" for s in x.walk()))
                     ctx.ob("R-WEIGHTS", f"row means of the test kernel use the stored training weights [{cfg}]", bool(okw), f"{[repr(x)[:80] for x in avgs[:3]]}", site_t, cfg)
+    # flags given as numpy booleans act by their truth value, in fit and in the readers alike
+    from ..flagrules import class_flag_equivalence
+
+    for flag in ("with_center", "with_trace"):
+        class_flag_equivalence(ctx, N, "R-FLAGS", P.cls(KN), flag, lambda: {"with_center": True, "with_trace": True}, [("fit", lambda: (arr("K", "N", "N"),), lambda: {"sample_weight": arr("w", "N")}), ("transform", lambda: (arr("Kt", "V", "N"),), lambda: {})], ctx.site(P.method(P.cls(KN), "fit")))
+        class_flag_equivalence(ctx, N, "R-FLAGS", P.cls(SK), flag, lambda: {"with_center": True, "with_trace": True}, [("fit", lambda: (arr("Knm", "N", "A"), arr("Kmm", "A", "A")), lambda: {"sample_weight": arr("w", "N")}), ("transform", lambda: (arr("Kt", "V", "A"),), lambda: {})], ctx.site(P.method(P.cls(SK), "fit")))
     # ---- SparseKernelCenterer ------------------------------------------------------------------------
     cls = P.cls(SK)
     for wc in (True, False):
